@@ -9,4 +9,4 @@ NOT_APPLICABLE = {
 
 
 # Properties whose module has been reviewed and armed by the lead (only these are claimed in MANIFEST.json).
-ARMED = ["C01", "C03", "C07", "C11"]
+ARMED = ["C01", "C03", "C07", "C11", "C19", "C45"]
